@@ -173,8 +173,11 @@ package types
 //@   assigns g_open
 //@   ensures result1 == nil ==> result0 != nil && result0.base == info.BaseIndex && result0.last == 0 && !result0.sealed
 
+//@ -- ghost view of the segment directory: self.listed = IDs of the segment files
+//@ -- found by List, self.deleted = IDs whose deletion has been requested
 //@ interface SegmentFiler.List
-//@   ensures result1 == nil ==> result0 != nil
+//@   assigns self.listed
+//@   ensures result1 == nil ==> result0 != nil && (forall id uint64 :: {mhas(result0, id)} mhas(result0, id) <==> inset(self.listed, id))
 //@ -- a recovered tail serves [base, last]; it may be sealed already (the crash
 //@ -- or Close happened after the sealing append, before the rotation committed).
 //@ -- [assumed-C01]: every acknowledged entry is recovered, so a tail that was
@@ -191,4 +194,5 @@ package types
 //@   assigns g_open
 //@   ensures result1 == nil ==> result0 != nil
 //@ interface SegmentFiler.Delete
-//@   ensures true
+//@   assigns self.deleted
+//@   ensures forall id uint64 :: {inset(self.deleted, id)} inset(self.deleted, id) <==> (old(inset(self.deleted, id)) || id == ID)
